@@ -1,6 +1,7 @@
 package checks
 
 import (
+	"crypto/sha256"
 	"encoding/json"
 	"fmt"
 	"math/big"
@@ -313,7 +314,31 @@ func c07History(c *vc.Ctx, idx int) {
 				h.ch.Inject(txs...)
 			}
 		}
+		relHot := b == 6 || b == 21 || b == 33
 		hotBatch := func(o *blockOps) {
+			if relHot {
+				// removal requests for every voter of the relayer group in one block (shuffled), with an add request for a
+				// fresh address in between: which removals are still admissible when the minimum is reached, and the order
+				// in which members are queued for removal, must not depend on a map order
+				if g, err := h.ch.Group(); err == nil && len(g.Voters) >= 2 {
+					var rms []*goattypes.RemoveVoterRequest
+					for _, v := range g.Voters {
+						if v != nil {
+							rms = append(rms, &goattypes.RemoveVoterRequest{Voter: common.BytesToAddress(v.Addr)})
+						}
+					}
+					if b != 6 {
+						rms = append(rms, &goattypes.RemoveVoterRequest{Voter: common.BytesToAddress(g.Proposer.Addr)})
+					}
+					h.r.Shuffle(len(rms), func(i, j int) { rms[i], rms[j] = rms[j], rms[i] })
+					o.Reqs.Relayer.Removes = append(o.Reqs.Relayer.Removes, rms...)
+					nm := world.NewMember(c.Seed, fmt.Sprintf("c07-newvoter-%d", idx), b)
+					kh := sha256.Sum256(nm.BLSPub)
+					o.Reqs.Relayer.Adds = append(o.Reqs.Relayer.Adds, &goattypes.AddVoterRequest{Voter: common.BytesToAddress(nm.Addr), Pubkey: common.BytesToHash(kh[:])})
+					o.Desc = append(o.Desc, fmt.Sprintf("hot relayer batch: %d removals (shuffled) and one add", len(rms)))
+					c.Count("hot_relayer_removal_batches", 1)
+				}
+			}
 			if !extraHot {
 				return
 			}
@@ -364,7 +389,7 @@ func c07History(c *vc.Ctx, idx int) {
 				leaving++
 			}
 		}
-		if extraHot || multiHot || leaving >= 2 {
+		if extraHot || multiHot || relHot || leaving >= 2 {
 			hot = append(hot, blk.Height)
 		}
 		if failing > 0 || extraHot || leaving >= 2 {
